@@ -60,7 +60,7 @@ pub struct ApplyNotes {
 	pub none_on_absent: bool,
 }
 
-fn apply_opt(act: &Act, target: &Option<String>, what: &str) -> Result<Option<String>, String> {
+pub fn apply_opt(act: &Act, target: &Option<String>, what: &str) -> Result<Option<String>, String> {
 	match act {
 		Act::None => Ok(target.clone()),
 		Act::Add(b) => match target {
@@ -639,7 +639,7 @@ impl<'a> RefRemapper<'a> {
 			}
 			Search::Dfs | Search::DfsStopAtUnmapped => {
 				fn go(r: &RefRemapper, c: &str, name: &str, desc: &str, method: bool, stop: bool, depth: usize) -> Option<(String, (String, String))> {
-					if depth > 64 {
+					if depth > 100_000 {
 						return None;
 					}
 					if stop && !r.by_from.contains_key(c) {
